@@ -343,7 +343,14 @@ def r02_5(ctx):
             pay = set()
             for l in lv:
                 if l.kind == "aggregate" and l.data["agg"].get("adt") == ADT["TaskResult"]:
-                    for o in l.data["ops"]:
+                    # the verdict is the Result-typed component; what else travels with it (the file's name, a flag, collected diagnostics,
+                    # statistics) is not what the coordinator's scheduling decisions are taken from
+                    def op_ty(o):
+                        pl = C.op_place(o)
+                        return cl.locals[pl["l"]]["ty"] if pl is not None and not pl["p"] else ""
+                    ops = l.data["ops"]
+                    verdict = [o for o in ops if op_ty(o).startswith("std::result::Result<")]
+                    for o in (verdict or ops):
                         for x in C.trace(cl, o):
                             pay.add(x.callee() if x.kind == "call" else x.kind)
             if pay and pay <= {ROLE["preprocess"], ROLE["scan_dir"]}:
@@ -588,8 +595,17 @@ def r03_6(ctx):
             ctx.violation(["make_abs"], "make_abs can return a path that is not the result of Path::canonicalize", site=ctx.site(ma, oks[0] if oks else 0))
     # AbsPath::new (unit tests only) is not mentioned by non-test code
     ments = C.all_mentions(lib, lambda ns: ROLE["abspath_new"] in ns)
-    if ments:
-        b, kind, bb, names, obj = ments[0]
+    # .. unless what it wraps is make_abs's result (`make_abs(p).map(Self::new)`: the constructor used as the literal it is)
+    bad_m = []
+    for (b, kind, bb, names, obj) in ments:
+        if kind == "call" and obj.get("args"):
+            lv = C.trace(b, obj["args"][0], through_decorators=True)
+            if lv and all(leaf_is_call(l, ROLE["make_abs"]) for l in lv):
+                ctx.ok("AbsPath::new(make_abs(..))|%s" % b.name.rsplit("::", 1)[-1], site=ctx.site(b, bb))
+                continue
+        bad_m.append((b, kind, bb, names, obj))
+    if bad_m:
+        b, kind, bb, names, obj = bad_m[0]
         ctx.violation(["abspath-new-used"], "AbsPath::new (no canonicalisation; for unit tests) is used by non-test code", site=ctx.site(b, bb))
     else:
         ctx.ok("AbsPath::new is not mentioned in non-test code")
@@ -951,6 +967,15 @@ def r05_6(ctx):
     """no spurious cycle: DepManager records every finished file before looking up its dependers, and never records an edge to a finished
     file — an edge to a file that will not be announced again would be left over and reported as a circular dependency (= C02 R02.7)"""
     r02_7(ctx)
+
+
+@rule("C05", "R05.7", floor=2)
+def r05_7(ctx):
+    """all waiting is the coordinator's: a worker task owns what it needs (file, shell, mode, flags, the sending end of the channel) and
+    shares no state through which it could wait for another file (= C02 R02.6). A cycle is reported because every "X waits for Y" is an
+    edge in DepManager when the run drains; two workers waiting for each other's files on a shared tracker is a cycle nobody can see —
+    the run hangs instead of failing"""
+    r02_6(ctx)
 
 
 @rule("C05", "R05.5", floor=1)
